@@ -838,6 +838,10 @@ class Table(Vector):
 		Every column assignment is first tried on a scratch copy, so an index,
 		length or type error in a later column leaves the whole table untouched.
 		"""
+		# (a value may be one of this table's own live columns - t[:, ('a', 'b')] = [t.b, t.a]:
+		#  take it as it is now, before anything is written)
+		own = self._underlying
+		assignments = [(col_idx, val.copy() if any(val is c for c in own) else val) for col_idx, val in assignments]
 		if len(assignments) > 1:
 			for col_idx, val in assignments:
 				col = self._underlying[col_idx]
